@@ -469,11 +469,11 @@ def classify(w):
 
 
 GENS = {
-    "params": Gen(case_params, 1500, 150000),
-    "result": Gen(case_result, 800, 80000),
-    "results": Gen(case_results, 1000, 100000),
-    "filename": Gen(case_filename, 100, 10000),
-    "runner-results": Gen(case_runner_results, 150, 15000),
+    "params": Gen(case_params, 1500, 500000),
+    "result": Gen(case_result, 800, 300000),
+    "results": Gen(case_results, 1000, 300000),
+    "filename": Gen(case_filename, 100, 40000),
+    "runner-results": Gen(case_runner_results, 150, 50000),
 }
 MIN_EVALS = {"params-roundtrip": 5000, "result-roundtrip": 2000,
              "results-roundtrip": 2000, "idempotent": 4000, "file-name": 1000}
